@@ -319,6 +319,17 @@ fn exhaustive_3men(cx: &mut Ctx, p: Piece) {
 fn c04(cx: &mut Ctx) {
     let sc = cx.n(SCENARIOS);
     emit_scenarios(cx, sc * 2, true, false, false);
+    // stalemates / mates where the side to move owns more than its king
+    let want = cx.n(SCENARIOS) / 3;
+    let mut got = 0usize;
+    for _ in 0..(want * 4) {
+        if got >= want { break; }
+        if let Some(b) = synth_no_move_position(&mut cx.rng, 4000) {
+            got += 1;
+            if b.checkers().popcnt() == 0 { cx.sink.count("synth_stalemates_with_extra_men"); } else { cx.sink.count("synth_mates_with_extra_men"); }
+            emit_pos(cx, &b);
+        }
+    }
     let n = cx.n(C04_POS);
     let mut count = 0usize;
     let roots = cx.corpus.boards.clone();
@@ -495,7 +506,8 @@ fn c06(cx: &mut Ctx) {
                     }
                 }
                 let half = match cx.rng.below(4) { 0 => 0, 1 => cx.rng.below(10), 2 => cx.rng.below(151), _ => 99 + cx.rng.below(3) };
-                let full = match cx.rng.below(3) { 0 => 1, 1 => 1 + cx.rng.below(60), _ => 1 + cx.rng.below(400) };
+                let full = match cx.rng.below(5) { 0 => 1, 1 => 1 + cx.rng.below(60), 2 => 1 + cx.rng.below(400), 3 => [127usize, 128, 255, 256, 257, 999, 1000, 5949, 32767, 32768, 65535, 65536][cx.rng.below(12)], _ => 1 + cx.rng.below(6000) };
+                let half = if cx.rng.chance(1, 12) { [100usize, 127, 128, 149, 150, 255, 256, 300][cx.rng.below(8)] } else { half };
                 let text = std_fen(b, target, half, full);
                 let line = ops::fenp(&text);
                 cx.sink.note_result(&line);
@@ -1013,12 +1025,80 @@ fn c12(cx: &mut Ctx) {
             cx.sink.count("must_reject_unreachable");
             cx.sink.emit(line);
         }
+        // castling text in EVERY sampled position, whether or not castling is legal there (the
+        // driver's oracle decides by the rules: it denotes the castling move or nothing)
+        if cx.rng.chance(1, 3) {
+            for base in ["O-O", "O-O-O"].iter() {
+                let t = match cx.rng.below(4) { 0 => format!("{}+", base), 1 => format!("{}#", base), _ => base.to_string() };
+                let line = ops::san(b, &t, "?");
+                cx.sink.note_result(&line);
+                cx.sink.count("castle_text_anywhere");
+                cx.sink.emit(line);
+            }
+        }
     };
+    // positions where a rook / queen (or nothing) stands on the king's home square and can reach the
+    // castling destinations, with the king elsewhere
+    {
+        let n = cx.n(SCENARIOS) / 2;
+        let mut done = 0usize; let mut tries = 0usize;
+        while done < n && tries < n * 40 {
+            tries += 1;
+            let mut d = BD::empty();
+            let white = cx.rng.chance(1, 2);
+            let (c, o) = if white { (Color::White, Color::Black) } else { (Color::Black, Color::White) };
+            let home = if white { 0 } else { 7 };
+            let pc = [Piece::Rook, Piece::Queen, Piece::Rook, Piece::King][cx.rng.below(4)];
+            d.sq[home * 8 + 4] = Some((pc, c));
+            if pc != Piece::King { let ks = cx.rng.below(64); if d.sq[ks].is_none() { d.sq[ks] = Some((Piece::King, c)); } else { continue; } }
+            let oks = cx.rng.below(64); if d.sq[oks].is_none() { d.sq[oks] = Some((Piece::King, o)); } else { continue; }
+            if cx.rng.chance(1, 2) { let s = home * 8 + 7; if d.sq[s].is_none() { d.sq[s] = Some((Piece::Rook, c)); } }
+            if cx.rng.chance(1, 2) { let s = home * 8; if d.sq[s].is_none() { d.sq[s] = Some((Piece::Rook, c)); } }
+            for _ in 0..cx.rng.below(4) { let s = cx.rng.below(64); if d.sq[s].is_none() { let p = [Piece::Knight, Piece::Bishop, Piece::Pawn, Piece::Rook][cx.rng.below(4)]; if !(p == Piece::Pawn && (s < 8 || s >= 56)) { d.sq[s] = Some((p, if cx.rng.chance(1, 2) { c } else { o })); } } }
+            d.stm = c;
+            if pc == Piece::King && cx.rng.chance(2, 3) { let r = 1 + cx.rng.below(3); if white { d.wcr = r } else { d.bcr = r } }
+            let b = match guard(|| Board::try_from(&d.builder()).ok()).flatten() { Some(b) => b, None => continue };
+            done += 1;
+            cx.sink.note_position(&b);
+            for base in ["O-O", "O-O-O", "O-O+", "O-O-O#"].iter() {
+                let line = ops::san(&b, base, "?");
+                cx.sink.note_result(&line);
+                cx.sink.count("castle_text_home_square_scenarios");
+                cx.sink.emit(line);
+            }
+        }
+    }
     for (i, b) in roots.iter().enumerate() {
         if count >= npos { break; }
         if i % 2 == 0 || i >= roots.len() - cx.corpus.derived { continue; }
         handle(cx, b, &mut goods);
         count += 1;
+    }
+    // positions with three to five men of ONE kind for the side to move (many spellings are ambiguous
+    // between two, three or four of them; some of the candidates pinned)
+    {
+        let n = cx.n(SCENARIOS) / 5;
+        let mut done = 0usize; let mut tries = 0usize;
+        while done < n && tries < n * 40 {
+            tries += 1;
+            let mut d = BD::empty();
+            let white = cx.rng.chance(1, 2);
+            let (c, o) = if white { (Color::White, Color::Black) } else { (Color::Black, Color::White) };
+            let kind = [Piece::Knight, Piece::Queen, Piece::Rook, Piece::Bishop][cx.rng.below(4)];
+            let centre = 18 + cx.rng.below(4) + 8 * cx.rng.below(4);
+            for _ in 0..(3 + cx.rng.below(3)) {
+                let s = { let r = (centre / 8) as i32 + cx.rng.below(5) as i32 - 2; let f = (centre % 8) as i32 + cx.rng.below(5) as i32 - 2; (r.max(0).min(7) * 8 + f.max(0).min(7)) as usize };
+                if d.sq[s].is_none() { d.sq[s] = Some((kind, c)); }
+            }
+            let ks = cx.rng.below(64); if d.sq[ks].is_none() { d.sq[ks] = Some((Piece::King, c)); } else { continue; }
+            let oks = cx.rng.below(64); if d.sq[oks].is_none() { d.sq[oks] = Some((Piece::King, o)); } else { continue; }
+            for _ in 0..cx.rng.below(4) { let s = cx.rng.below(64); if d.sq[s].is_none() { let p = [Piece::Rook, Piece::Bishop, Piece::Queen, Piece::Knight, Piece::Pawn][cx.rng.below(5)]; if !(p == Piece::Pawn && (s < 8 || s >= 56)) { d.sq[s] = Some((p, o)); } } }
+            d.stm = c;
+            let b = match guard(|| Board::try_from(&d.builder()).ok()).flatten() { Some(b) => b, None => continue };
+            done += 1;
+            cx.sink.count("many_same_kind_positions");
+            handle(cx, &b, &mut goods);
+        }
     }
     while count < npos {
         let root = cx.root();
